@@ -73,6 +73,7 @@ class EngineBase:
         self.ord_counters: dict = {}
         self.ufun_cache: dict = {}
         self.card_funs: dict = {}
+        self.okey_funs: dict = {}
         self.input_vars: dict = {}
         self.feas_cache: dict = {}
         self.stats = {"feas_checks": 0, "feas_time": 0.0}
@@ -333,6 +334,36 @@ class EngineBase:
         s2 = st.assume(z3.And(*facts)) if facts else st.fork()
         s2.ghost["$cards"] = tuple(seen) + ((key, setv.zs[0], c),)
         return s2, c
+
+    def okeys(self, st: State, m: V):
+        """The iteration view of an ordered map (A-ODICT): the keys as a sequence in increasing rank.  OKLEN / OKAT / OKPOS
+        are functions of the map (member array, rank array), so the same map has the same view wherever it is iterated; the
+        axioms are instantiated for this map only: at/pos are inverse bijections between [0, n) and the key set, at is
+        strictly rank-increasing, and n is the cardinality of the key set."""
+        from .values import map_keys
+        kt = m.t.k
+        so = zsort(kt)
+        h, r = m.zs[0], m.zs[-1]
+        key = str(so)
+        if key not in self.okey_funs:
+            self.okey_funs[key] = (z3.Function(f"OKLEN_{key}", h.sort(), r.sort(), z3.IntSort()),
+                                   z3.Function(f"OKAT_{key}", h.sort(), r.sort(), z3.IntSort(), so),
+                                   z3.Function(f"OKPOS_{key}", h.sort(), r.sort(), so, z3.IntSort()))
+        LEN, AT, POS = self.okey_funs[key]
+        n = LEN(h, r)
+        i, j = z3.Int(fresh_name("i")), z3.Int(fresh_name("j"))
+        k = z3.Const(fresh_name("k"), so)
+        st, c = self.card(st, map_keys(m))
+        st = st.assume(z3.And(
+            n >= 0, c == n,
+            z3.ForAll([i], z3.Implies(z3.And(0 <= i, i < n), z3.And(z3.Select(h, AT(h, r, i)), POS(h, r, AT(h, r, i)) == i)),
+                      patterns=[AT(h, r, i)]),
+            z3.ForAll([k], z3.Implies(z3.Select(h, k), z3.And(0 <= POS(h, r, k), POS(h, r, k) < n, AT(h, r, POS(h, r, k)) == k)),
+                      patterns=[POS(h, r, k)]),
+            z3.ForAll([i, j], z3.Implies(z3.And(0 <= i, i < j, j < n), z3.Select(r, AT(h, r, i)) < z3.Select(r, AT(h, r, j))),
+                      patterns=[z3.MultiPattern(AT(h, r, i), AT(h, r, j))])))
+        self.note_assumed("A-ODICT: iteration over a dict visits every key exactly once, in increasing insertion rank")
+        return st, n, (lambda ix: V(kt, [AT(h, r, ix)]))
 
     def def_array(self, st: State, x, body, base="def"):
         """A fresh array A with the defining axiom forall x. A[x] == body (instead of a lambda term)."""
